@@ -195,7 +195,7 @@ impl Report {
             let summary = json!({"states": self.states, "transitions": self.transitions, "violations": total, "violation_classes": ev["coverage"]["violation_classes"], "counters": self.counters, "notes": self.notes,
                 "first_violations": new_violations.iter().take(3).map(|v| v.to_json()).collect::<Vec<_>>(), "vacuous": vacuous});
             println!("DRAW-RESULT {}", summary);
-            return if !vacuous.is_empty() { 2 } else if new_violations.is_empty() { 0 } else { 1 };
+            return if !new_violations.is_empty() { 1 } else if !vacuous.is_empty() { 2 } else { 0 };
         }
         let _ = std::fs::create_dir_all(format!("{}/evidence", verif_dir()));
         let evp = format!("{}/evidence/{}.json", verif_dir(), self.prop);
@@ -213,11 +213,14 @@ impl Report {
         for (id, (what, n)) in &known_hits {
             println!("KNOWN-FINDING: property={} {} [{}; {} witness(es) kept]", self.prop, what, id, n);
         }
-        if !vacuous.is_empty() {
+        if !vacuous.is_empty() && new_violations.is_empty() {
             eprintln!("MACHINERY-ERROR: vacuous run, mandatory counters are zero: {:?}", vacuous);
             return 2;
         }
         if !new_violations.is_empty() {
+            if !vacuous.is_empty() {
+                println!("  note: mandatory counters are zero ({:?}); the violations below stand on their own", vacuous);
+            }
             for (v, p) in new_violations.iter().zip(replay_paths.iter()) {
                 println!("  violation class={} seed=\"{}\" path=[{}] :: {}", v.class, v.seed, v.path.join(" "), v.detail);
                 println!("VIOLATION property={} replay={}", self.prop, p);
